@@ -17,13 +17,13 @@ from sphinx.util import logging
 from sphinx.util.math import get_node_equation_number
 from sphinx.writers.html import HTMLTranslator
 
+from myst_parser.warnings_ import MystWarnings
+
 logger = logging.getLogger(__name__)
 
 
 def log_override_warning(app: Sphinx, version: int, current: str, new: str) -> None:
     """Log a warning if MathJax configuration being overridden."""
-    if logging.is_suppressed_warning("myst", "mathjax", app.config.suppress_warnings):
-        return
     config_name = (
         "mathjax3_config['options']['processHtmlClass']"
         if version == 3
@@ -32,7 +32,9 @@ def log_override_warning(app: Sphinx, version: int, current: str, new: str) -> N
     logger.warning(
         f"`{config_name}` is being overridden by myst-parser: '{current}' -> '{new}'. "
         "Set `suppress_warnings=['myst.mathjax']` to ignore this warning, or "
-        "`myst_update_mathjax=False` if this is undesirable."
+        "`myst_update_mathjax=False` if this is undesirable.",
+        type="myst",
+        subtype=MystWarnings.MATHJAX.value,
     )
 
 
